@@ -96,7 +96,7 @@ fn main() {
             sim::write_trace(&out, &lines);
             println!("{}", json!({"summary": {"scenarios": to + 1 - from, "lines": lines.len()}}));
         }
-        "browse" | "browsew" | "resolve" | "flood" | "silent" | "conflict" => {
+        "browse" | "browsew" | "resolve" | "resolvew" | "flood" | "silent" | "conflict" => {
             let from: u64 = a.get("from").and_then(|s| s.parse().ok()).unwrap_or(1);
             let to: u64 = a.get("to").and_then(|s| s.parse().ok()).unwrap_or(10);
             let mut lines = Vec::new();
@@ -105,6 +105,7 @@ fn main() {
                     "browse" => lines.extend(browse::scenario(id, seed, thorough, "browse")),
                     "browsew" => lines.extend(browse::scenario(id, seed, thorough, "browsew")),
                     "resolve" => lines.extend(browse::scenario_resolve(id, seed, thorough)),
+                    "resolvew" => lines.extend(browse::scenario_resolve_p(id, seed, thorough, false)),
                     "silent" => lines.extend(browse::scenario_silent(id, seed, thorough)),
                     "conflict" => lines.extend(conflict::scenario(id, seed, thorough)),
                     _ => lines.extend(browse::scenario_flood(id, seed, thorough)),
